@@ -11,7 +11,7 @@ from .stack import (CaptureLL, make_router, set_ego, gn_addr, pack, lpv_fields, 
 PROP = "C02"
 COQ_TARGETS = ["Properties/C02", "Extract/ExC02"]
 MODEL_ML = "c02_model.ml"
-GENS = ["gen_c02"]
+GENS = ["gen_c02", "gen_src_geonet"]
 MODEL_NAME = "c02"
 TRUSTED_BASE = [
     "Coq 8.16.1 kernel (coqc); vm_compute only in the width-table side conditions (Forall / mod 8) ; no native_compute",
@@ -19,9 +19,15 @@ TRUSTED_BASE = [
     "hand-written model coq/theories/Model/Wire.v (layout tables of EN 302 636-4-1 clause 9 / 5-1 clause 7), "
     "tied to the code by differential execution of every header codec and of a real Router + BTP router",
     "Python harness harness/c02.py, harness/stack.py (independent reference encoder used as the property oracle)",
+    "translator tools/pyz.py + tools/gen_src_geonet.py (Python ast -> Gallina, fail-closed): encode_to_int / encode of "
+    "BasicHeader, CommonHeader, TrafficClass, GNAddress, Long/ShortPositionVector, BTP-A/B, TSB/GBC/GUC/LS extended "
+    "headers and BasicHeader.decode_from_int are regenerated from the source on every run (Gen/SrcGeonet.v) and proved "
+    "to produce the layout tables of Model/Wire.v for all in-range field values (C02_source_* theorems); the translator's "
+    "reading of Python semantics (unbounded ints, <<, |, &, to_bytes raising OverflowError out of range) is trusted",
 ]
 ASSUMPTIONS = [
-    "the model is tied to the header classes and the router by execution on the same inputs, not by proof",
+    "the header encoders named in the trusted base are tied to the model by proof over their regenerated translation; "
+    "the remaining decoders, the packet assembly in the router and the BTP router are tied by execution on the same inputs",
     "wide fields (MID 48 bit, TST/lat/lon 32 bit) are sampled with boundary bias; fields up to 16 bits are swept "
     "exhaustively in the thorough tier",
     "decoders are compared on conformant packets and on arbitrary octets; re-encoding of received headers whose "
